@@ -27,6 +27,8 @@ def base_knobs(r, allow_faulty_io=True):
             k["tracedir"] = r.choice(["lnk/ovni", "lnk/a/ovni"])
         else:
             k["tmpdir"] = "lnk/t"
+    if r.chance(8):
+        k["close_stdin"] = 1        # the process runs with descriptor 0 closed (0 is then a valid stream descriptor)
     k["readdir"] = r.choice([0, 1, 2, 3 + r.below(1000)])
     if allow_faulty_io and r.chance(50):
         k["shortw_seed"] = 1 + (r.u64() >> 1)
